@@ -53,10 +53,22 @@ func (h *hooked) Check(ent Entry, ce *CheckedEntry) *CheckedEntry {
 	// Let the wrapped Core decide whether to log this message or not. This
 	// also gives the downstream a chance to register itself directly with the
 	// CheckedEntry.
-	if downstream := h.Core.Check(ent, ce); downstream != nil {
+	//
+	// The hooks run only if the wrapped Core accepted this entry, i.e. added
+	// itself to the CheckedEntry. A non-nil result alone does not say so: it
+	// is also non-nil when an earlier branch of a tee accepted the entry.
+	accepted := 0
+	if ce != nil {
+		accepted = len(ce.cores)
+	}
+	downstream := h.Core.Check(ent, ce)
+	if downstream == nil {
+		return ce
+	}
+	if len(downstream.cores) > accepted {
 		return downstream.AddCore(ent, h)
 	}
-	return ce
+	return downstream
 }
 
 func (h *hooked) With(fields []Field) Core {
